@@ -7,7 +7,7 @@ for id in "$@"; do
   SCR="$(mktemp -d /tmp/verif-seed.XXXXXX)"
   cp "$ROOT/known_findings.jsonl" "$SCR/"
   TMP="$(mktemp -d /tmp/verif.XXXXXX)"
-  EXTRA=(); [ "$id" = C14 ] && EXTRA=(-stmt leveldb/memdb); [ "$id" = C17 ] && EXTRA=(-stmt leveldb/cache); case "$id" in C05|C10) EXTRA=(-stmt "$("$ROOT/scripts/stmtfiles.sh")") ;; esac
+  EXTRA=(); [ "$id" = C14 ] && EXTRA=(-stmt leveldb/memdb); [ "$id" = C17 ] && EXTRA=(-stmt leveldb/cache); case "$id" in C05|C09|C10|C18) EXTRA=(-stmt "$("$ROOT/scripts/stmtfiles.sh")") ;; esac
   if VERIF_REPO="$WT" "$ROOT/scripts/build.sh" "$TMP" "${EXTRA[@]}" >"$TMP/build.log" 2>&1; then
     VERIF_ROOT="$SCR" "$TMP/verif" run "$id" "${TIER:-quick}" 2>&1 | grep -aE "^C[0-9]+ |signature|UNCONF|NONDET|bound=" | head -${LINES_MAX:-6} | cut -c1-${CUT:-420}
     echo "  -> exit ${PIPESTATUS[0]}"
